@@ -5,6 +5,7 @@ import os
 import re
 
 from .. import common as C
+from .. import shimlab as S
 
 ID = "C19"
 LEVEL = "model_checking"
@@ -13,7 +14,11 @@ RULE = ("every interleaving (loom: DPOR, unbounded or preemption-bounded as list
         "permits and C spurious wake-all steps; modes: local guard, owned guard released by another thread, raw "
         "acquire/release, and the dispatcher/worker throttling protocol of rehash(). A state is one complete "
         "execution; transitions are semaphore operations executed. Invariants: holders <= permits, no deadlock, "
-        "permit count restored.")
+        "permit count restored. Call-site conformance (binds the protocol model to group.rs): the real `group` runs "
+        "with RLIMIT_NOFILE reported as 100 (70, 150 in thorough) by the interposer while the real limit stays large, pools of 200-300 threads, 300 small / 120 three-stage "
+        "files, every read delayed by 20 ms (the schedule that maximises overlap); a monitor counts descriptors open "
+        "on scanned files: never more than the reported limit, the run ends, every duplicate pair is reported. These "
+        "runs are single executions (not exhaustive); they are counted as one state each.")
 ASSUMPTIONS = ["loom wakes condvar waiters FIFO; nondeterministic choice of the woken waiter comes from shuttle",
                "memory orderings weaker than what Mutex/Condvar give are not used by the subject",
                "std::sync::Arc is not instrumented (it carries no synchronisation the property depends on)"]
@@ -24,6 +29,7 @@ SHUTTLE = os.path.join(C.BUILD, "shuttle", "release", "fcv-shuttle")
 
 
 def prepare(tier):
+    S.prepare()
     C.build_harness("loom", "--cfg fclones_verif_loom")
     C.build_harness("shuttle", "--cfg fclones_verif_shuttle")
 
@@ -65,9 +71,18 @@ def cases(tier, seed):
     q.append(_cfg("shuttle", "local", 2, 1, 0, 0))
     q += [_cfg("loom", "owned", 2, 2, 1, 0), _cfg("loom", "local", 3, 1, 2, 0), _cfg("loom", "local", 3, 2, 1, 0, 3),
           _cfg("loom", "owned", 4, 1, 1, 0, 2), _cfg("loom", "raw", 2, 2, 2, 1)]
+    # ---- the real call sites: `group` under a small reported descriptor limit, large pools, slow reads
+    for tree in ("small300", "big120"):
+        for threads in (["-t", "300"], ["-t", "default:300"], ["-t", "main:8", "-t", "default:200,200"]):
+            for tr in ([], ["--transform", "cat"]):
+                if tr and (tree == "big120" or threads[1] != "300"):
+                    continue
+                q.append({"engine": "e2e", "tree": tree, "threads": threads, "extra": tr, "nofile": 100})
     if tier == "quick":
         return q
     th = list(q)
+    for nofile in (70, 150):
+        th.append({"engine": "e2e", "tree": "small300", "threads": ["-t", "300"], "extra": [], "nofile": nofile})
     th += [
         _cfg("loom", "owned", 2, 2, 2, 0), _cfg("loom", "local", 2, 2, 0, 1),
         _cfg("loom", "local", 2, 3, 2, 0), _cfg("loom", "local", 2, 3, 2, 1),
@@ -82,7 +97,55 @@ def cases(tier, seed):
     return th
 
 
+def evaluate_e2e(case):
+    """Binds the protocol model to the real call sites: `fclones group` runs with RLIMIT_NOFILE reported as `nofile`
+    (the real limit stays large, so an over-admission shows as a count, not as EMFILE), hashing pools far larger than
+    that, and every read of a scanned file delayed by 20 ms so that tasks pile up with their file open. Invariants:
+    the run ends; at no time more descriptors than the reported limit are open on scanned files; the report is
+    complete (every duplicate pair found, nothing dropped)."""
+    n = 300 if case["tree"] == "small300" else 120
+    size = 5000 if case["tree"] == "small300" else 70000
+    viol = []
+    with C.Scratch() as sc:
+        tree = []
+        for i in range(n):
+            tree.append({"p": "r/d%d/f%03d" % (i % 7, i), "k": "file", "c": ["base", size, i // 2 + 1]})
+        C.make_tree(sc.tree, tree)
+        args = ["group", "--min", "0", "-f", "json"] + case["threads"] + case["extra"] + ["r"]
+        env = {"FCSHIM_FAKE_NOFILE": str(case["nofile"]), "FCSHIM_READ_DELAY_US": "20000", "FCLONES_VERIF_DISK_KIND": "ssd"}
+        res = S.run_with_shim(sc, args, [sc.tree], "r", env_extra=env, timeout=300)
+        feat = {"mode": "call_sites", "engine": "e2e", "transform": bool(case["extra"])}
+        ctx = "`fclones %s` with RLIMIT_NOFILE reported as %d, %d files of %d bytes, reads delayed" % (
+            " ".join(args), case["nofile"], n, size)
+        maxopen = int(res["marks"].get("MAXOPEN", -1))
+        opens = sum(1 for e in res["events"] if e.call == "open")
+        if res["timeout"]:
+            viol.append(dict(feat, kind="hang", detail=ctx + ": did not finish within 300 s"))
+        elif res["rc"] != 0:
+            viol.append(dict(feat, kind="run_failed", detail="%s: rc=%s %s" % (ctx, res["rc"], res["err"][-300:])))
+        else:
+            if maxopen < 0:
+                raise C.MachineryError("shim did not report #MAXOPEN")
+            if maxopen > case["nofile"]:
+                viol.append(dict(feat, kind="open_file_budget_exceeded",
+                                 detail="%s: %d descriptors were open on scanned files at the same time" % (ctx, maxopen)))
+            rep = C.parse_json_report(res["out"])
+            got = sorted(sorted(os.path.basename(C.u(p)) for p in g["paths"]) for g in rep.groups)
+            exp = sorted(["f%03d" % i, "f%03d" % (i + 1)] for i in range(0, n, 2))
+            if got != exp:
+                viol.append(dict(feat, kind="files_dropped", detail="%s: %d of %d pairs reported; stderr %s" % (
+                    ctx, len(got), len(exp), res["err"][-200:])))
+    contended = maxopen >= min(case["nofile"] - 5, 64) - 1
+    return {"violations": viol, "states": 1, "transitions": max(opens, 1), "evaluations": 1,
+            "nontrivial": [["e2e", case["tree"], " ".join(case["threads"] + case["extra"]), case["nofile"]]] if contended else None,
+            "outcome": "e2e_budget_reached" if contended else "e2e_budget_not_reached",
+            "counters": {"e2e_max_open": maxopen, "e2e_runs": 1},
+            "sample": {"case": case, "max_open": maxopen, "opens": opens}}
+
+
 def evaluate(case):
+    if case["engine"] == "e2e":
+        return evaluate_e2e(case)
     exe = LOOM if case["engine"] == "loom" else SHUTTLE
     argv = [exe, case["mode"], str(case["t"]), str(case["p"]), str(case["n"]), str(case["c"])]
     if case["engine"] == "loom":
@@ -126,4 +189,6 @@ def finish(stats, tier):
     out = []
     if not stats["outcomes"].get("contended"):
         out.append("no configuration ever had a thread waiting for a permit")
+    if not stats["outcomes"].get("e2e_budget_reached"):
+        out.append("no end-to-end run ever filled the open-file budget (the call-site check was vacuous)")
     return out
